@@ -5,6 +5,7 @@ from pyvc import smt
 from pyvc.smt import Val, ValList, SeqVal
 from pyvc.values import *  # noqa
 from pyvc.contracts import Contract, Loop, InjectCfg
+from pyvc.core import PyRaise
 from . import common, server
 from .server import RS, F, S
 
@@ -12,7 +13,7 @@ ID = 'C11'
 MIN_OBLIGATIONS = 20
 TRUSTED = [common.TEXT['msgsock'], server.lsock_class().text, server.rctx_class().text,
            'itertools.chain(a, b) yields every element of a then every element of b',
-           'server-side RemoteWorker.__setstate__ (run by unpickling the worker payload) fails only with ConnectionClosedError when the client goes away during the handshake (its own lemma is not in this round; see assumptions)']
+           'server-side RemoteWorker.__setstate__ (run by unpickling the worker payload) fails only with ConnectionClosedError when the client goes away during the handshake: lemma L2 up to the creation of the backend (raises_only), under T: on a connection the peer has reset getpeername() fails with ENOTCONN while getsockname() still works']
 ASSUMPTIONS = [
     'clients send messages of the protocol\'s types (header None or (ctx_id, bool); context payload None or a RemoteContext); what is unconstrained is WHERE the stream ends (every truncation point) and whether a reply can still be delivered',
     'C11.L2 (no capture) covers the wait for the control connection inside the server-side RemoteWorker.__setstate__ (the only wait of the accept loop\'s thread on a client other than reading its request); the waits on the server\'s OWN freshly spawned backend process further down that function (_startup_sync, runtime info) are C20\'s concern and are outside the scope of the lemma (paths end where the backend is created)',
@@ -264,7 +265,14 @@ def no_capture_lemma(ex):
         ex_.abs_classes['CtrlListen'] = listen_class()
         cc = ex_.abs_classes['Conn']
         cc.methods.setdefault('getsockname', lambda ex2, a, k: VTuple([VSym(ex2.fresh('host', Val)), VSym(ex2.fresh('port', Val))]))
-        cc.methods.setdefault('getpeername', lambda ex2, a, k: VTuple([VSym(ex2.fresh('phost', Val)), VSym(ex2.fresh('pport', Val))]))
+        def getpeername(ex2, a, k):
+            # T: on a connection the peer has RESET (what a killed client whose socket has SO_LINGER 0 produces) getpeername() fails with ENOTCONN;
+            # the local address (getsockname) stays available
+            if ex2.choose(2, 'cli:getpeername') == 1:
+                ex2.note('getpeername: the client has reset the connection (ENOTCONN)')
+                raise PyRaise(VExc('OSError', []))
+            return VTuple([VSym(ex2.fresh('phost', Val)), VSym(ex2.fresh('pport', Val))])
+        cc.methods['getpeername'] = getpeername
         cc.methods.setdefault('settimeout', lambda ex2, a, k: NONE)
         cli = common.new_chan(ex_, 'Conn', 'cli')
         n = [0]
@@ -291,7 +299,7 @@ def no_capture_lemma(ex):
         ex_.ghost['__new_hooks__'] = {'pyworkers.utils.Pipe': end_of_scope}
         ex_.ghost['recv_closed_check'] = False
 
-    return Contract(RW + '.__setstate__', lid='L2', name='C11.L2 server-side RemoteWorker.__setstate__ never waits for the control connection of a client that is gone',
+    return Contract(RW + '.__setstate__', lid='L2', name='C11.L2 server-side RemoteWorker.__setstate__ never waits for the control connection of a client that is gone, and a client that is gone makes it raise ConnectionClosedError only (what the accept loop handles)',
                     params={'self': ('const', None), 'state': ('const', None)}, self_class=RW, setup=setup,
                     ensures=[], raises={'ConnectionClosedError': None}, raises_only=['ConnectionClosedError'], options={'recv_closed_check': False})
 
@@ -374,7 +382,7 @@ MUTANTS = [
 
 def replay(ob, repo):
     from pyvc.native import run_script
-    if 'C18.L2' in ob.get('text', ''):       # routing of worker requests by context id: the scenario of the context helper
+    if 'C18.L' in ob.get('text', ''):       # context table transitions / routing of worker requests by context id: the scenarios of the context helper
         r = run_script('c18_native.py', {'lemma': 'C18.L2'}, repo, timeout=150)
         return bool(r.get('violates')), r
     r = run_script('c11_native.py', {'name': 'all'}, repo, timeout=250)
